@@ -99,4 +99,23 @@ TickObj(o) ==
   ELSE IF o.retries < MAX_RETRIES THEN
        [obj |-> [o EXCEPT !.retries = @ + 1], out |-> IF o.last = None THEN <<>> ELSE <<o.last>>, res |-> "ok"]
   ELSE [obj |-> [o EXCEPT !.stage = "closing"], out |-> <<>>, res |-> "fatal"]
+
+\* n calls of every_second in closed form: [obj, cnt (repetitions of obj.last emitted), res].  Equal to iterating
+\* TickObj (checked by TLC as TickManyOK in the design runs); used by the trace specification, where a leap of
+\* 119 ticks must not be evaluated by a 119-deep lazy recursion.
+TickMany(o, n) ==
+  IF n = 0 THEN [obj |-> o, cnt |-> 0, res |-> "ok"]
+  ELSE IF o.stage = "closing" THEN [obj |-> o, cnt |-> 0, res |-> "gone"]
+  ELSE IF o.stage = "waitClose" THEN
+       IF n <= o.closeT THEN [obj |-> [o EXCEPT !.closeT = @ - n], cnt |-> 0, res |-> "ok"]
+       ELSE [obj |-> [o EXCEPT !.closeT = 0, !.stage = "closing"], cnt |-> 0, res |-> "gone"]
+  ELSE LET room == MAX_RETRIES - o.retries IN
+       IF n <= room THEN [obj |-> [o EXCEPT !.retries = @ + n], cnt |-> IF o.last = None THEN 0 ELSE n, res |-> "ok"]
+       ELSE [obj |-> [o EXCEPT !.retries = MAX_RETRIES, !.stage = "closing"], cnt |-> IF o.last = None THEN 0 ELSE room, res |-> "fatal"]
+
+RECURSIVE TickIter(_, _, _, _)
+TickIter(o, n, cnt, res) ==
+  IF n = 0 \/ res = "fatal" THEN [obj |-> o, cnt |-> cnt, res |-> res]
+  ELSE LET r == TickObj(o) IN TickIter(r.obj, n - 1, cnt + Len(r.out), r.res)
+TickManyAgrees(o, n) == TickMany(o, n) = TickIter(o, n, 0, "ok")
 =============================================================================
